@@ -5,6 +5,8 @@ import (
 	"expvar"
 	"sync"
 	"time"
+
+	"github.com/rqlite/rqlite/v10/internal/verifhook"
 )
 
 // stats captures stats for the Queue.
@@ -139,9 +141,13 @@ func (q *Queue[T]) Write(objects []T, c FlushChannel) (int64, error) {
 	// Take the lock and don't release it until the function returns.
 	// This ensures that the incremented sequence number and write to
 	// batch channel are synchronized.
+	verifhook.Yield("queue.seqMu.pre")
 	q.seqMu.Lock()
+	verifhook.Note("queue.seqMu.acquired", 0)
+	defer verifhook.Note("queue.seqMu.released", 0)
 	defer q.seqMu.Unlock()
 	q.seqNum++
+	verifhook.Yield("queue.write.locked")
 
 	q.batchCh <- &queuedObjects[T]{
 		SequenceNumber: q.seqNum,
@@ -209,6 +215,7 @@ func (q *Queue[T]) run() {
 	}
 
 	for {
+		verifhook.Yield("queue.run.loop")
 		select {
 		case s := <-q.batchCh:
 			if s == nil { // flush marker
